@@ -104,7 +104,12 @@ def judge(ctx, topo, exc, n, edges, order, variant, tuple_rng=None, foreign=0):
                     continue
                 outs.append(names)
                 # ---- sort_as_subsets
-                subs = [[x.name for x in s] for s in topo.sort_as_subsets(tv, items)]
+                # keep the yielded levels and read them only after the generator is
+                # exhausted (a level object must not change once it was delivered)
+                kept = list(topo.sort_as_subsets(tv, items))
+                subs = [[x.name for x in s] for s in kept]
+                if len({id(s) for s in kept}) != len(kept):
+                    ctx.violation("subsets-levels-aliased", f"sort_as_subsets yielded the same list object for several levels: {subs}", desc)
                 flat = [x for s in subs for x in s]
                 if flat != names:
                     ctx.violation("subsets-disagree-with-sort", f"subsets={subs} sort={names}", desc)
